@@ -392,6 +392,43 @@ def shard(ctx, job):
     run_random(ctx, job['n'], job['big'])
 
 
+def shared_remote_case(order):
+    """One description of a peer (the `remote_ae` dict, with extra user-information sub-items of the application in
+    'user_data') is used by two requesting entities of the process, configured with different maximum PDU lengths:
+    every request carries ITS entity's maximum, once, and the application's dict is the application's."""
+    from pynetdicom2 import applicationentity, userdataitems
+    case = {'shared_remote': True, 'order': list(order)}
+    extra = userdataitems.ImplementationVersionNameSubItem('APP_1_0')
+    remote = {'aet': 'SRV', 'address': 'peer.example', 'port': 104, 'user_data': [extra]}
+
+    def responder(dul, rec):
+        if rec['kind'] == 'pdu':
+            t = rec['spec'].get('t')
+            if t == 1:
+                pcs = [it for it in rec['spec']['items'] if it['t'] == 0x20]
+                return [fd.incoming_pdu(fd.ac_spec([(it['id'], 0, it['ts'][0]['name']) for it in pcs], 32768))]
+            if t == 5:
+                return [fd.incoming_pdu({'t': 6, 'r1': 0, 'r2': 0})]
+        return []
+    for n, own in enumerate(order):
+        ae = applicationentity.ClientAE('CLI%d' % n, [TSS[0]], own)
+        ae.timeout = 0.01
+        ae.add_scu(make_service(7), ['1.2.826.0.1.3680043.9.5000.77'])
+        fac = fd.Factory([lambda d: setattr(d, 'responder', responder)])
+        with fd.installed(fac):
+            with ae.request_association(remote):
+                pass
+        rq = fac.instances[0].sent_pdus(1)[0]['spec']
+        subs = [s_ for it in rq['items'] if it['t'] == 0x50 for s_ in it['subs']]
+        maxes = [s_['max'] for s_ in subs if s_['t'] == 0x51]
+        if maxes != [own]:
+            raise Violation('C11:request:max-length', 'request %d made with a shared remote_ae description by an entity configured '
+                            'with maximum PDU length %d carries Maximum Length sub-items %r' % (n + 1, own, maxes), case)
+        if remote['user_data'] != [extra]:
+            raise Violation('C11:request:remote-description-edited', 'after request %d the application\'s remote_ae[\'user_data\'] holds '
+                            '%d items (it had 1)' % (n + 1, len(remote['user_data'])), case)
+
+
 def run_builtin(ctx):
     """The library's own service objects: an SCP entity with storage_scp (139 classes) must configure, and
     requesting from it must either work within 1..255 or fail cleanly."""
@@ -440,6 +477,9 @@ def run_builtin(ctx):
 
 def run(ctx):
     quiet_warnings()
+    for order in ((65536, 16384), (16384, 65536, 0), (0, 4096)):
+        ctx.case(('shared-remote', order), True, labels=['shared-remote-description'], sample={'own maxima': order})
+        ctx.check(shared_remote_case, order)
     ctx.rule = ('Hypothesis: sequences of 1-6 add_scu/add_scp calls on ClientAE/AE (never bound) with class lists '
                 'from a pool of 200 synthetic UIDs, disjoint, overlapping across calls and repeated inside a call, optionally with an earlier association request between the calls (answered with any mix of result codes) with supported_ts changed between two calls and with entries deleted from context_def_list between two calls, small and with totals around and '
                 'beyond 128; replies with every mix of result codes 0-4, syntax choices, in and out of proposal '
@@ -458,6 +498,9 @@ def run(ctx):
 
 def replay(case):
     quiet_warnings()
+    if case.get('shared_remote'):
+        shared_remote_case(tuple(case['order']))
+        return
     if 'builtin' in case:
         from ..common import Ctx
         sub = Ctx('C11', 'quick', 1)
